@@ -220,6 +220,15 @@ func c18Scens(tier string) []e1Scen {
 			out = append(out, e1Scen{Prop: "C18", Cfg: cfg, Alpha: word, Mode: "fault", Len: 4 * (nrot + cfg.SegCount + 4), FaultAt: fa, Name: fmt.Sprintf("rotation-fault-%d", fa)})
 		}
 	}
+	// storage fault at the end of a segment (MPEG-TS: the final flush of the finished segment fails), repeated at every
+	// fourth rotation, writer carries on: the segment that could not be completed must not stay in Directory
+	for _, tracks := range [][]string{{"h264"}, {"h264", "aac44"}} {
+		cfg := mcfg("mpegts", true, 3, tracks...)
+		word := []sym{{T: 0, D: "q", K: "R"}, {T: 0, D: "q", K: "n"}, {T: 0, D: "q", K: "n"}, {T: 0, D: "q", K: "n"}}
+		for fa := 1; fa <= 4; fa++ {
+			out = append(out, e1Scen{Prop: "C18", Cfg: cfg, Alpha: word, Mode: "flushfault", Len: 4 * 30, FaultAt: fa, Name: fmt.Sprintf("flush-fault-from-%d", fa)})
+		}
+	}
 	// configurations at and below the minimum SegmentCount of the Low-Latency variant, given explicitly and through the
 	// zero value of Variant: Start may refuse 3..6; if it accepts, the retention bound is the SegmentCount it was given
 	for n := 3; n <= 8; n++ {
